@@ -30,6 +30,7 @@ RULES = {
     "stp": ("p|a { x: 1 }", (1, 0, 0, 0, [1], [])),
     "stq": ("q|b { x: 1 }", (1, 0, 0, 0, [2], [])),
     "md": ("@media all { a { x: 1 } }", (4, 0, 0, 0, [], [1])),
+    "mdn": ("@media all { @media print { a { x: 1 } } }", (4, 0, 0, 0, [], [4])),
     "pg": ("@page { margin: 0 }", (6, 0, 0, 0, [], [])),
     "pgm": ("@page { @top-left { x: 1 } }", (6, 0, 0, 0, [], [1006])),
     "ff": ("@font-face { font-family: x }", (5, 0, 0, 0, [], [])),
@@ -70,6 +71,17 @@ def obs(sheet):
     return [obs_rule(r) for r in sheet.cssRules]
 
 
+def tree(rules, shown_only=False):
+    """nested [type, children-or-None] description of a rule list (children for @media / @page)"""
+    out = []
+    for r in rules:
+        if shown_only and not r.cssText:
+            continue
+        kids = tree(r.cssRules, shown_only) if r.type in (r.MEDIA_RULE, r.PAGE_RULE) else None
+        out.append([r.type, kids])
+    return out
+
+
 def mkobj(name):
     """a fresh, detached rule object of the representative kind"""
     import css_parser
@@ -88,19 +100,23 @@ def text_of(names):
 
 
 def _target(sheet, k):
+    """k: None (the sheet), an index (a top-level @media/@page) or a path [i, j, ...] into nested containers"""
     if k is None:
         return sheet
-    rs = sheet.cssRules
-    if 0 <= k < len(rs) and rs[k].type in (rs[k].MEDIA_RULE, rs[k].PAGE_RULE):
-        return rs[k]
-    return None
+    cur = sheet
+    for i in (k if isinstance(k, list) else [k]):
+        rs = cur.cssRules
+        if not (0 <= i < len(rs) and rs[i].type in (rs[i].MEDIA_RULE, rs[i].PAGE_RULE)):
+            return None
+        cur = rs[i]
+    return cur
 
 
 def apply_op(sheet, op):
     """op = [name, args...] (JSON); returns ['ret', v] | ['exc', class] | ['skip']"""
     kind = op[0]
     try:
-        if kind in ("ins", "add"):
+        if kind in ("ins", "add", "append", "extend"):
             k, form, names = op[1], op[2], op[3]
             tgt = _target(sheet, k)
             if tgt is None:
@@ -108,6 +124,10 @@ def apply_op(sheet, op):
             arg = text_of(names) if form == "text" else mkobj(names[0])
             if kind == "add":
                 r = tgt.add(arg)
+            elif kind == "append":
+                r = tgt.cssRules.append(arg)          # the rule list's append/extend are the owner's insertRule
+            elif kind == "extend":
+                r = tgt.cssRules.extend(arg)
             elif k is None:
                 r = tgt.insertRule(arg, op[4], op[5])
             else:
@@ -163,6 +183,7 @@ def reparse_kinds(sheet):
         txt = sheet.cssText
         # rules the serializer prints nothing for (an @page without declarations and margin rules) are not expected back
         shown = [r.type for r in sheet.cssRules if r.cssText]
+        shown_tree = tree(sheet.cssRules, True)
     except Exception as e:  # noqa
         return ["SERIALIZE-RAISED", type(e).__name__]
     finally:
@@ -170,7 +191,8 @@ def reparse_kinds(sheet):
         css_parser.ser.prefs.keepEmptyRules = oldkeep
     try:
         p = css_parser.CSSParser(fetcher=nofetch, raiseExceptions=False)
-        return [shown, [r.type for r in p.parseString(txt).cssRules]]
+        back = p.parseString(txt).cssRules
+        return [shown, [r.type for r in back], shown_tree, tree(back)]
     except Exception as e:  # noqa
         return ["REPARSE-RAISED", type(e).__name__]
     finally:
@@ -178,7 +200,7 @@ def reparse_kinds(sheet):
 
 
 def run_history(case):
-    """case = (rx, ops, reparse_every). Returns per op (result, state, reparse kinds or None)."""
+    """case = (rx, ops, reparse_every). Returns per op (result, state, re-parse observation or None, deep tree)."""
     import css_parser
     rx, ops, every = case
     css_parser.log.setLevel(logging.FATAL)
@@ -197,7 +219,7 @@ def run_history(case):
             css_parser.log.raiseExceptions = bool(rx)
             st = obs(s)
             rp = reparse_kinds(s) if (every or n == len(ops) - 1) else None
-            out.append((res, st, rp))
+            out.append((res, st, rp, tree(s.cssRules)))
     finally:
         css_parser.log.raiseExceptions = saved
     return out
@@ -223,11 +245,18 @@ def enc_index(i):
     return "N" if i is None else str(i)
 
 
+class NotModelled(Exception):
+    pass
+
+
 def enc_op(op):
     kind = op[0]
-    if kind in ("ins", "add"):
+    if len(op) > 1 and isinstance(op[1], list):
+        raise NotModelled("operation on a nested container")
+    if kind in ("ins", "add", "append", "extend"):
         k, form, names = op[1], op[2], op[3]
-        index, inorder = (None, True) if kind == "add" else (op[4], op[5])
+        index, inorder = (None, True) if kind == "add" else (None, False) if kind in ("append", "extend") \
+            else (op[4], op[5])
         src = ";".join(enc_item(proto_of(n)) for n in names) if form == "text" else enc_item(obj_of(names[0]))
         f = "T" if form == "text" else "O"
         if k is None:
